@@ -160,6 +160,17 @@ def step (st : St) (toks : List String) : St × String :=
             | some p => (st, "found" ++ String.join ((findNodes st.sv sid p).map (fun v => " " ++ hexS (pathString v))))
             | none => (st, "bad-op")
           | _ => (st, "bad-op")
+        else if op = "setm" then
+          -- ONE PR_COMMAND_SETDATA whose field holds several payloads: the items are set one after the other and the
+          -- subscribers' pending updates are pushed once, after the whole command
+          match toks with
+          | _ :: _ :: p :: vs =>
+            match bytesOfTok p, vs.mapM nat? with
+            | some p, some vs =>
+              if vs.isEmpty || st.batch.any (fun (s, _) => s = sl) then (st, "bad-op") else
+              ({ st with sv := pushAll (vs.foldl (fun sv v => runCmd sv sid (.set p v false)) st.sv) }, "ok")
+            | _, _ => (st, "bad-op")
+          | _ => (st, "bad-op")
         else if op = "batch" then
           match toks with
           | [_, _, "begin"] => if (st.batch.any (fun (s, _) => s = sl)) then (st, "bad-op") else ({ st with batch := st.batch ++ [(sl, [])] }, "ok")
